@@ -1,3 +1,4 @@
+@property
 def spec(self):
     if hasattr(self, 'bias_'):
         return self.bias_
